@@ -38,6 +38,15 @@ KERNELS = [
                          (r"(?<![\w>._])offset(?![\w_])", "self->offset", 1)]),
 ]
 
+KERNELS += [
+    dict(name="K_fss_reorder", file="src/IO/InterfileHeader.cxx", cxx_name="find_segment_sequence: loop re-ordering the per-segment header lists (statement kernel)",
+         func=r"find_segment_sequence\(vector<int>& segment_sequence,", c_header="void K_fss_reorder(const int num_segments)", loops=1,
+         span=(r"for \(int i = 0; i < num_segments; i\+\+\)\s*\{\s*(?:const int \w+ = location_and_segment_num|sorted_min_ring_diff)", r"\n    \}"),
+         rules=[(r"location_and_segment_num\[(\w+)\]\.second", r"LS_SEG(\1)", (1, 3)), (r"location_and_segment_num\[(\w+)\]\.first", r"LS_LOC(\1)", (1, 3)),
+                (r"sorted_(min_ring_diff|max_ring_diff|num_rings_per_segment)\[([^\]]*)\]\s*=\s*([^;]+);", r"SORTED_WRITE(\1, \2, \3);", 3),
+                (r"(?<![\w_])(min_ring_difference|max_ring_difference|num_rings_per_segment)\[([^\]]*)\]", r"IN_\1(\2)", 3)]),
+]
+
 CHK = ["--signed-overflow-check", "--div-by-zero-check", "--bounds-check", "--pointer-check", "--conversion-check"]
 VT = {"quick": [(1, 2), (3, 5), (4, 4), (8, 16)],
       "thorough": [(v, t) for v in range(1, 9) for t in range(1, 9)] + [(8, 16), (16, 8), (12, 20), (32, 64), (96, 128)]}
@@ -63,6 +72,8 @@ def jobs(tier, gen_dir):
 
     J("K_find_int", "h_K_find_int", enforce="K_find_int", lc=True, kernels=["K_find_int"])
     J("lemma_prefix_monotone", "h_lemma_prefix_monotone", kind="lemma", min_obligations=2)
+    J("K_fss_reorder", "h_K_fss_reorder", enforce="K_fss_reorder", lc=True, kernels=["K_fss_reorder"],
+      repl=["LS_SEG", "LS_LOC", "IN_min_ring_difference", "IN_max_ring_difference", "IN_num_rings_per_segment"])
     for V, T in VT[tier]:
         d = {"C02_V": V, "C02_T": T}
         J("K_pdm_get_index/V=%d/T=%d" % (V, T), "h_K_pdm_get_index", enforce="K_pdm_get_index", repl=["K_find_int"], lc=True, defs=d,
@@ -116,8 +127,10 @@ def replay(job, o, workroot, repo):
         exe, info = native.build(repo, os.path.join(VERIF, "replay", "c02.cpp"), exe)
         if not exe:
             return {"status": "unavailable", "detail": "replay driver did not build: " + info}
-    for mode in ("range", "paths"):
-        st, detail = native.run(exe, [mode], timeout=900)
+    os.environ.setdefault("STIR_CONFIG_DIR", os.path.join(repo, "src/config"))
+    modes = [["header", workroot]] if "fss" in job.name else []
+    for mode in modes + [["range"], ["paths"]] + ([] if modes else [["header", workroot]]):
+        st, detail = native.run(exe, mode, timeout=900)
         if st == "confirmed":
-            return {"status": "confirmed", "detail": detail, "command": "c02_replay " + mode, "from_verifier_counterexample": False}
+            return {"status": "confirmed", "detail": detail, "command": "c02_replay " + " ".join(mode), "from_verifier_counterexample": False}
     return {"status": "not-reproduced", "detail": "c02_replay range; c02_replay paths (in-memory, stream with permuted segment sequence, both storage orders)"}
